@@ -1,7 +1,6 @@
+(* model: wire *)
 (* model side of harness bin `wire` (formats: harness/src/wire.rs); float arguments arrive
    as the hex of std's Display text instead of bit patterns *)
-open Model
-open Conv
 
 let unhex0 s = if s = "_" then [] else unhex s
 let hex0 l = if l = [] then "_" else hex l
